@@ -110,6 +110,24 @@ pub fn gen_frame(rng: &mut Rng, n: usize, out: &mut Vec<String>) {
     }
 }
 
+/// C03: responses of every kind with random control lists (criticality absent / TRUE / FALSE, value absent / present, known and unknown OIDs)
+/// in random legal length forms, through the real decoder.
+pub fn gen_respctl(rng: &mut Rng, n: usize, out: &mut Vec<String>) {
+    let oids: &[&[u8]] = &[b"1.2.840.113556.1.4.319", b"1.3.6.1.4.1.4203.1.9.1.2", b"1.3.6.1.1.13.2", b"1.2.3.4", b"2.16.840.1.113730.3.4.18", b"9.9"];
+    for i in 0..n {
+        let app = *rng.pick(&[1u64, 5, 7, 9, 11, 13, 15, 24]);
+        let k = rng.below(5) as usize;
+        let ctrls: Vec<StructureTag> = (0..k).map(|_| {
+            let crit = match rng.below(3) { 0 => None, 1 => Some(true), _ => Some(false) };
+            let val = if rng.chance(1, 2) { Some(rng.bytes(rng.clone().below(6) as usize)) } else { None };
+            control(*rng.pick(oids), crit, val.as_deref())
+        }).collect();
+        let refs = if rng.chance(1, 4) { Some(vec![b"ldap://r/".to_vec()]) } else { None };
+        let m = message(1 + rng.below(70000) as i64, ldap_result(app, *rng.pick(&[0i64, 10, 32, 49, 256]), b"dc=m", b"text", refs), Some(ctrls));
+        out.push(format!("frame {} -", hex(&encode_with(&m, rng, i % 2 == 0))));
+    }
+}
+
 /// Positions (offset of identifier octet, header length, content length) of every TLV in a well-formed encoding.
 fn tlv_positions(b: &[u8], base: usize, out: &mut Vec<(usize, usize, usize)>) {
     let mut off = 0;
